@@ -10,7 +10,7 @@ LEVEL = "model_checking"
 ANCHOR_PREFIXES = ["transform::Transformer::write_root_svg", "transform::process_tags", "transform::", "position::BoundingBox", "element::SvgElement::bbox", "context::",
                    "transform_attr::", "path::", "types::split_unit"]
 BOUNDS = ("root <svg> with every subset of {width, height, viewBox} supplied (concrete values), 1-3 top-level children from {rect, circle, ellipse, line, polyline, polygon, path (M L H V Z abs/rel), "
-          "standalone text, box, point, g with translate (symbolic) / scale (0.5, 2, 0.5x2; with --negative scale in a separate family) nested once, use of a shape, use of a symbol, "
+          "standalone text, box, point, g with translate (symbolic) / scale (0.5, 2, 0.5x2, -1x2) nested once, use of a shape, use of a symbol, "
           "shape with clip-path (clipPath in defs), defs/specs/symbol content, shape with generated text}; border in {0,3,5}, scale in {0.5,1,2}; positions k/2 in [-256,256], sizes k/2 in [0,128]")
 ASSUMPTIONS = ["E is recomputed from the output's own geometry for rendered elements (by id) and from the input values for the invisible <box>; generated text, points, defs/specs/symbol content are not counted",
                "a clipped element contributes the intersection with its clip path's content box, nothing when that is empty",
@@ -58,7 +58,7 @@ def kinds():
     return K
 
 
-MAIN = ["rect", "circle", "ellipse", "line", "polyline", "polygon", "path", "text", "box", "gtrans", "gscale", "gscale2", "gnest", "gnest2", "gtrans1", "use", "usesym", "clip", "shapetext"]
+MAIN = ["rect", "circle", "ellipse", "line", "polyline", "polygon", "path", "text", "box", "gtrans", "gscale", "gscale2", "gnest", "gnest2", "gtrans1", "gneg", "use", "usesym", "clip", "shapetext"]
 NOTHING = ["point", "defs", "specs", "symbol"]
 ROOTS = ["", 'width="200"', 'height="10cm"', 'viewBox="0 0 100 50"', 'width="200" height="10cm"', 'width="30mm" viewBox="1 2 3 4"', 'height="77" viewBox="1 2 3 4"', 'width="1in" height="2in" viewBox="0 0 1 1"']
 
